@@ -9,7 +9,7 @@
 EXTENDS Parser
 
 (* Field / Function print their enum names; the Parser model already uses those names as the field / function values *)
-NameC(s) == CASE s = "Size" -> <<"S","i","z","e">> [] s = "Name" -> <<"N","a","m","e">> [] s = "Hardlinks" -> <<"H","a","r","d","l","i","n","k","s">>
+EnumC(s) == CASE s = "Size" -> <<"S","i","z","e">> [] s = "Name" -> <<"N","a","m","e">> [] s = "Hardlinks" -> <<"H","a","r","d","l","i","n","k","s">>
               [] s = "Uid" -> <<"U","i","d">> [] s = "Length" -> <<"L","e","n","g","t","h">> [] s = "Lower" -> <<"L","o","w","e","r">>
               [] s = "Upper" -> <<"U","p","p","e","r">> [] s = "Abs" -> <<"A","b","s">> [] OTHER -> <<"?">>
 ArithC(o) == CASE o = "Add" -> <<"+">> [] o = "Subtract" -> <<"-">> [] o = "Multiply" -> <<"*">> [] o = "Divide" -> <<"/">> [] o = "Modulo" -> <<"%">> [] OTHER -> <<"?">>
@@ -19,12 +19,12 @@ ExprText(e) ==
   IF IsNone(e) THEN <<>>
   ELSE (IF e.minus THEN <<"-">> ELSE <<>>)
        \o (IF e.function # NONE
-           THEN NameC(e.function) \o <<"(">> \o ExprText(e.left) \o (IF e.args.some THEN ArgsText(e.args.list) ELSE <<>>) \o <<")">>
+           THEN EnumC(e.function) \o <<"(">> \o ExprText(e.left) \o (IF e.args.some THEN ArgsText(e.args.list) ELSE <<>>) \o <<")">>
            ELSE IF ~IsNone(e.left)
            THEN (IF e.arithmetic_op # NONE /\ ~IsNone(e.right)
                  THEN <<"(">> \o ExprText(e.left) \o <<" ">> \o ArithC(e.arithmetic_op) \o <<" ">> \o ExprText(e.right) \o <<")">>
                  ELSE ExprText(e.left) \o ExprText(e.right))
            ELSE <<>>)
-       \o (IF e.field # NONE THEN NameC(e.field) ELSE <<>>)
+       \o (IF e.field # NONE THEN EnumC(e.field) ELSE <<>>)
        \o (IF e.val.some THEN e.val.c ELSE <<>>)
 =============================================================================
